@@ -56,7 +56,8 @@ def live3_part(tier, mon, kinds=None):
     # so each shape is given in three layouts and each copy starts the histories of one third of the message classes
     states = list(dict.fromkeys(canonical(t) for t in first.initial_states()))
     n = len(states) // len(shapes)
-    slices = {t: (i // len(shapes), n) for i, t in enumerate(states)} if len(states) == len(shapes) * len(layouts) else None
+    # (rotated by the shape's index, so that every message class meets every layout in some shape)
+    slices = {t: ((i // len(shapes) + i % len(shapes)) % n, n) for i, t in enumerate(states)} if len(states) == len(shapes) * len(layouts) else None
     w = LiveThirdStep(mon, second, third, slices=slices, **per)
     return {'label': 'live-three-message-histories', 'harness': first, 'monitors': [w],
             'opts': {'max_depth': 0} if tier == 'quick' else {'max_depth': 0, 'time_cap': 1200}}
